@@ -117,8 +117,11 @@ def check_c14(ctx):
         if k == 0:
             lines.append(gen_segmap_ops(rng)); meta.append(('segmap',))
         elif k == 1:
-            log = G.rand_log(rng, invalid_rate=0.2, unknown_rate=0.05)
+            kinds = []
+            log = G.rand_log(rng, invalid_rate=0.2, unknown_rate=0.05, kinds=kinds)
             lines.append('readall ' + G.hexs(G.frames(log))); meta.append(('mixed',))
+            # ... and the same log without the entries generated as invalid: the other entries must read the same
+            lines.append('readall ' + G.hexs(G.frames([p for p, kd in zip(log, kinds) if kd != 'invalid']))); meta.append(('mixedbase',))
         else:
             # pair: valid log, and the same log with one invalid entry inserted
             log = G.rand_log(rng, n_entries=rng.choice([2, 4, 8, 16]))
@@ -184,6 +187,19 @@ def check_c14(ctx):
                               'C14: an invalid entry changed the interpretation of other entries',
                               {'kind': 'input', 'input_line': lines[i + 1], 'base_line': lines[i],
                                'impl_with': impl[i + 1], 'impl_base': impl[i]})
+            i += 1
+        elif m[0] == 'mixed' and i + 1 < len(impl) and not impl[i].startswith('<harness') and not impl[i + 1].startswith('<harness'):
+            witems = parse_items(parse_kv(impl[i]).get('items', ''))
+            bitems = parse_items(parse_kv(impl[i + 1]).get('items', ''))
+            # several invalid entries, anywhere (also the same one twice): what the valid entries yield does not depend on them
+            if not any(it.startswith('X(') for it in bitems):
+                if [it for it in witems if not it.startswith('X(')] != bitems:
+                    prop_fail.add(i)
+                    ctx.violation('invalid-local-%s' % hashlib.sha256(lines[i].encode()).hexdigest()[:10],
+                                  'C14: invalid entries changed the interpretation of other entries (the log without them reads differently)',
+                                  {'kind': 'input', 'input_line': lines[i], 'base_line': lines[i + 1], 'impl_with': impl[i], 'impl_base': impl[i + 1]})
+                elif len(witems) > len(bitems):
+                    nontrivial.add(lines[i])
             i += 1
         else:
             nontrivial.add(lines[i])
